@@ -46,6 +46,11 @@ def gen_case(rng):
         unit, period, punit = rng.choice(c08.configs(rng))
         case["render"] = [rng.randint(0, 10 ** 6), unit, str(period), punit, rng.random() < (0.8 if direct_until else 0.5)]
         case["stream"] = "ext-d/units"
+    elif rng.random() < 0.15 and any(x[0] in ("tb1", "tb2") for x in F.subformulas(f)):
+        # one object, evaluated, then given another sampling period, then evaluated on w1 and on its extensions: bounds written
+        # as durations (2k s), first period 1 s, then 2 s - the horizon is k samples again
+        case["reconf"] = True
+        case["stream"] = "ext-d/reconfigured"
     return case
 
 
@@ -61,8 +66,33 @@ def check_case(ctx, case, hor, m_rho1):
         period = Fraction(period)
         text = c08.render(random.Random(seed), f, unit, period * c08.NS[punit], [], unl)
         kw = dict(unit=unit, sampling=(int(period) if period.denominator == 1 else float(period), punit, 0.1), limit=8.0, timeout_is_outcome=True)
-    o1 = impl.eval_offline_discrete(text, case["decl"], w1, n1, **kw)
-    rep = {"render": case.get("render"), "spec": text, "formula": F.to_proto(f), "n": n1, "data": w1, "exts": case["exts"], "horizon": hor, "impl_w1": o1}
+    reconf_obj = None
+    if case.get("reconf"):
+        text = "out = " + F.to_text(f, bound=lambda k: str(2 * k))
+
+        def first():
+            spec = impl.make_spec("offd", text, case["decl"])
+            spec.parse()
+            ds = {"time": list(range(n1))}
+            ds.update({v: list(w1[v]) for v in case["decl"]})
+            spec.evaluate(ds)
+            spec.set_sampling_period(2, "s", 0.1)
+            return spec
+        r0 = impl.guarded(first)
+        if r0[0] == "ok":
+            reconf_obj = r0[1]
+
+    def evaluate(w, n):
+        if reconf_obj is None:
+            return impl.eval_offline_discrete(text, case["decl"], w, n, **kw)
+
+        def go():
+            ds = {"time": list(range(n))}
+            ds.update({v: list(w[v]) for v in case["decl"]})
+            return reconf_obj.evaluate(ds)
+        return impl.guarded(go)
+    o1 = evaluate(w1, n1)
+    rep = {"reconf": bool(case.get("reconf")), "render": case.get("render"), "spec": text, "formula": F.to_proto(f), "n": n1, "data": w1, "exts": case["exts"], "horizon": hor, "impl_w1": o1}
     if o1[0] != "ok":
         return Violation("evaluate() raised %r on %s" % (o1[1:], text), rep, stream=case["stream"])
     v1 = [p[1] for p in o1[1]]
@@ -71,7 +101,7 @@ def check_case(ctx, case, hor, m_rho1):
         ctx.nontrivial.add(disc.data_key(text, w1))
     for w2 in case["exts"]:
         n2 = len(next(iter(w2.values())))
-        o2 = impl.eval_offline_discrete(text, case["decl"], w2, n2, **kw)
+        o2 = evaluate(w2, n2)
         ctx.evaluations += 1
         rep2 = dict(rep, w2=w2, impl_w2=o2)
         if o2[0] != "ok":
@@ -128,7 +158,7 @@ def replay(ctx, obj):
     f = F.from_proto(obj["formula"])
     c = {"stream": "replay", "f": f, "n": obj["n"], "data": {k: [float(x) for x in v] for k, v in obj["data"].items()},
          "exts": [{k: [float(x) for x in v] for k, v in e.items()} for e in obj["exts"]], "decl": F.variables(f) or ["a"],
-         "render": obj.get("render")}
+         "render": obj.get("render"), "reconf": obj.get("reconf")}
     (hor, m_rho), = model([c])
     v = check_case(Ctx(ctx.id, ctx.tier, ctx.seed), c, hor, m_rho)
     return (v is None), (v.what if v else "settled values are stable on the replayed case")
